@@ -333,11 +333,13 @@ fn scenarios(tier: Tier) -> Vec<Scenario> {
     // dynamic container: write appends to the archive and saves the index; remove saves the index
     let ypre: Vec<&str> = match tier {
         Tier::Quick => vec!["", "w:A"],
-        Tier::Thorough => vec!["", "w:A", "w:A;w:B", "w:A;rm:A"],
+        Tier::Thorough => vec!["", "w:A", "w:A;w:B", "w:A;rm:A", "w:B"],
     };
+    // one acknowledged operation per window: write and remove each persist before they return, so a
+    // window of two of them has a legitimate intermediate state that is neither old nor new
     let ysave: Vec<&str> = match tier {
         Tier::Quick => vec!["w:B", "rm:A"],
-        Tier::Thorough => vec!["w:B", "rm:A", "w:C", "w:A", "w:B;rm:B"],
+        Tier::Thorough => vec!["w:B", "rm:A", "w:C", "w:A", "rm:B"],
     };
     for p in &ypre {
         for s in &ysave {
